@@ -20,14 +20,20 @@ PROPS = {
 }
 
 PROPS["C17"] = {
-    "proof_files": ["Proofs/Dispatch.v"],
+    "proof_files": ["Proofs/Dispatch.v", "Proofs/Sched.v", "Proofs/SchedUse.v"],
+    "gen_files": ["Gen/SchedUse.v"],
     "corr": ["C17"],
-    "trusted_base": ["tie to the code: CORRESPONDENCE - Model/Dispatch.v is hand-written; every reachable transition of a real sendFileState (small totals, exhaustively) and random long histories are re-evaluated on the model inside coqc"],
-    "assumptions": ["one event per mutex-protected method of sendFileState; the three locked assignments of applyResumeInfo / its verification goroutine are replayed by the shim (export_verif.go), not by the closure itself"],
-    "level_text": "Theorems over all event lists (any number of workers, chunks, any bitmap, any arrival time of plan and verdict) on an executable model of sendFileState; the model is checked transition-by-transition against the real object.",
-    "level_note": "Trusted: Coq kernel, the harness/shims. Modelled not verified: the worker loop around the state machine (nextTask), goroutine scheduling at finer than method granularity.",
-    "technique": "Coq invariant proof over event lists + exhaustive transition correspondence with the real state machine",
-    "explanation": "state-machine model, invariants by induction over event lists",
+    "trusted_base": ["tie to the code: CORRESPONDENCE - Model/Dispatch.v is hand-written; every reachable transition of a real sendFileState (small totals, exhaustively) and random long histories are re-evaluated on the model inside coqc",
+                     "tie to the code: CORRESPONDENCE - Model/Sched.v is hand-written; every call of random call sequences and of sender-pattern runs on a real scheduler.HybridScheduler (Add/UpdateRemaining/Remove/SetParallelFiles/Next with a harness clock) is replayed on the model with its result and the Snapshot() class counts; the float credits are an oracle (the model is told which pending medium/large file was chosen and checks membership)",
+                     "tie to the code: TRANSLATOR - Gen/SchedUse.v (the scheduler's call sites in SendManifestMultiStream, the pending/started marking around them, Remove after the FileDone wait, the stream bound of the activateNext loop) is regenerated from multistream.go and Proofs/SchedUse.v re-proved on every run",
+                     "whole sends: the real SendManifestMultiStream (real workers, real scheduler) against a recording receiver over the in-memory transport; the oracle is evaluated on the records and frames on the wire, there is no model replay of these runs"],
+    "assumptions": ["one event per mutex-protected method of sendFileState; the three locked assignments of applyResumeInfo / its verification goroutine are replayed by the shim (export_verif.go), not by the closure itself",
+                    "scheduler keys: ordering decisions of HybridScheduler look at RelPath only, the model's integer keys stand for RelPath order (order-preserving names in the harness); SmallSlotFrac is a dyadic rational in the correspondence runs (exact in float64)",
+                    "usage machine: one UNext per activateNext call (under schedMu), one UDone per FileDone(ok) handled by sendFileEnd's goroutine (under schedMu); an activateNext whose FileBegin write fails ends the transfer and is outside the healthy-run statements"],
+    "level_text": "Theorems over all event lists (any number of workers, chunks, any bitmap, any arrival time of plan and verdict) on an executable model of sendFileState, and over all usage histories (any manifest, stream count, clock, credit choices, order of slot releases) on an executable model of the hybrid scheduler as the sender uses it; both models are checked call-by-call against the real objects, the usage pattern is read off the source.",
+    "level_note": "Trusted: Coq kernel, the harness/shims, gotrans for the call-site facts. Modelled not verified: the worker loop around the state machine (nextTask) and goroutine scheduling at finer than method granularity - exercised by whole sends with the wire-level oracle (tested, not proved); the scheduler's float credit arithmetic (oracle).",
+    "technique": "Coq invariant proofs over event lists (dispatch state machine; scheduler usage machine with termination measure) + exhaustive transition correspondence with the real sendFileState + call-by-call correspondence with the real HybridScheduler + translator-generated call-site facts + whole-send wire oracle",
+    "explanation": "state-machine models, invariants by induction over event lists",
 }
 
 PROPS["C18"] = {
